@@ -37,6 +37,7 @@ func runC03Dbg(e *Env) {
 	defer verifhook.Reset()
 	var mu sync.Mutex
 	bad := 0
+	classes := map[string]int{}
 	vk.ParallelDo(n, 16, func(i int) {
 		cc := c
 		cc.ID = fmt.Sprintf("%s-r%d", c.ID, i)
@@ -46,10 +47,18 @@ func runC03Dbg(e *Env) {
 		}
 		mu.Lock()
 		bad++
-		if bad <= 3 {
-			fmt.Printf("run %d: %s diff=%v\n%s\n", i, o.Res.Summary(), o.Diff, o.Res.HangDump)
+		cls := "error"
+		if o.Res.Hung {
+			cls = "hung"
+		} else if o.Res.Inconclusive != "" {
+			cls = "inconclusive:" + o.Res.Inconclusive
+		}
+		classes[cls]++
+		if o.Res.Hung && classes[cls] <= 3 {
+			missing := o.StateAtStop
+			fmt.Printf("run %d: %v diff=%v\nmissing-or-different at the time of the hang: %v\n%s\n", i, o.Res.Summary(), o.Diff, missing, o.Res.HangDump)
 		}
 		mu.Unlock()
 	})
-	fmt.Printf("c03dbg: %d/%d runs did not complete\n", bad, n)
+	fmt.Printf("c03dbg: %d/%d runs did not complete: %v\n", bad, n, classes)
 }
